@@ -181,11 +181,15 @@ W_TRACE = {
     'E': ('container', '20 mL', []),
     'R': ('plate', '500 uL', 1, 2),
     'Z': ('container', 'inf L', [('lipase', '5 U')]),          # nothing but enzyme: wells filled from it hold enzyme only
+    'Y': ('container', 'inf L', [('nacl', '1 mmol')]),         # nothing but a dry solid
 }
 
 
 def trace_alphabet():
     a = [T('Z', 'R', '0.4 U'), T('R', 'E', '0.1 U'), T('R', 'E', '0.05 uL'), T(['R', "(1, 2)"], 'E', '2 ug'), T('Z', 'E', '1 U')]
+    # draws from dry sources whose MASS is below the storage resolution of a gram (tens of picograms) while the amount itself
+    # (moles, activity units) is thousands of resolutions: they are transfers like any other, nothing may be dropped
+    a += [T('Z', 'E', '2e-7 U'), T('Z', 'R', '2e-7 U'), T('Y', 'E', '0.0003 nmol'), T('Y', 'R', '0.0003 nmol'), T('Y', 'E', '2e-11 g')]
     for s, d in (('A', 'E'), ('E', 'A'), ('A', 'R'), (['R', "(1, 1)"], 'E'), (['R', "(1, 1)"], ['R', "(1, 2)"])):
         for q in ('0.3 mL', '0.2 g', '20 uL', '3 mmol'):
             a.append(T(s, d, q))
